@@ -659,6 +659,8 @@ def build_case(res):
     res["unknown_content"] = 0
     for p, q in sel:
         h = res["ref_contents"].get(tuple(q["path"]))
+        if not q["syntax_ok"] or any((not q2["syntax_ok"]) for _, q2 in sel if q2["key"] == q["key"]):
+            h = None          # the probe's boom-syntax switch changes the text (written only under formatter noop)
         if h is None:
             # no reference (the valid base has no such output): the content cannot be judged,
             # everything else (exit class, which paths change) still is
@@ -1112,14 +1114,16 @@ def inj_schema_required(rng, scn):
     """a template whose schema requires a key, and no template-data anywhere"""
     lv, d, path = level_dict(rng, scn, ("root", "pkg"))
     d["template"] = "file://@S@/tpl/c10_req.templ"
-    for dd in [scn["root"]] + [lvl(e, "config") for e in scn["packages"].values()]:
-        if dd:
-            dd.pop("template-data", None)
-    for e in scn["packages"].values():
-        for i, ie in (lvl(e, "interfaces") or {}).items():
-            for c in [lvl(ie, "config")] + list(lvl(ie, "configs") or []):
-                if c and "template-data" in c:
-                    del c["template-data"]
+    # no template-data anywhere - in the valid base too (it shapes the content of the other files)
+    for sc in [scn] + ([scn["base_ref"]] if scn.get("base_ref") is not None else []):
+        for dd in [sc["root"]] + [lvl(e, "config") for e in sc["packages"].values()]:
+            if dd:
+                dd.pop("template-data", None)
+        for e in sc["packages"].values():
+            for i, ie in (lvl(e, "interfaces") or {}).items():
+                for c in [lvl(ie, "config")] + list(lvl(ie, "configs") or []):
+                    if c and "template-data" in c:
+                        del c["template-data"]
     scn["tags"].append("SchemaReject")
     scn["tags"].append("level:required-no-data")
 
@@ -1198,6 +1202,8 @@ def use_trap(scn, path=None):
     d["template"] = "file://@S@/tpl/c10_trap.templ"
     # the builtin templates' template-data keys are not in the probe's schema
     for p, e in scn["packages"].items():
+        if path is not None and p != path:
+            continue          # other packages keep their template and their data (and their content)
         for i, ie in (lvl(e, "interfaces") or {}).items():
             for c in [lvl(ie, "config")] + list(lvl(ie, "configs") or []):
                 if c and "template-data" in c:
@@ -1259,12 +1265,171 @@ def inj_prepare_failure(rng, scn):
     scn["tags"].append("PrepareFailure")
 
 
+# ---- "a later occurrence after a valid first one": the bad value sits on the LAST mock of a file that
+# ---- several mocks share (caches, first-only checks) --------------------------------------------------
+def shared_file(rng, scn, name=None, n=None):
+    """Make package a (2 interfaces) or c (3) write all its mocks into one file, in the scenario and
+    in its valid base; returns (package path, interface names in discovery order)."""
+    name = name or rng.choice(["a", "c"])
+    path = pkg_path(name)
+    for sc in [scn] + ([scn["base_ref"]] if scn.get("base_ref") is not None else []):
+        if name not in sc["pkgs"]:
+            sc["pkgs"].append(name)
+        ent = ensure_cfg(sc, path)
+        ent["config"]["all"] = True
+        for k in ("include-interface-regex", "exclude-interface-regex", "template-data"):
+            ent["config"].pop(k, None)
+        ent["config"]["filename"] = "shared_file_test.go"
+        ent["interfaces"] = {}
+        sc["root"].pop("template-data", None)
+    return path, ifaces_of(path)
+
+
+def later(field, values, tag, trap=False, entry=False):
+    def inj(rng, scn):
+        if trap:
+            use_trap(scn)
+        path, ifs = shared_file(rng, scn)
+        v = rng.choice(values)
+        v = v(rng) if callable(v) else v
+        ent = scn["packages"][path]
+        if entry:
+            ent["interfaces"][ifs[-1]] = {"configs": [{"structname": "Plain{{.InterfaceName}}"}, {"structname": "Odd{{.InterfaceName}}", field: v}]}
+            bent = scn["base_ref"]["packages"][path] if scn.get("base_ref") is not None else None
+            if bent is not None:
+                bent["interfaces"][ifs[-1]] = {"configs": [{"structname": "Plain{{.InterfaceName}}"}, {"structname": "Odd{{.InterfaceName}}"}]}
+        else:
+            ent["interfaces"][ifs[-1]] = {"config": {field: v}}
+        scn["tags"].append(tag)
+        scn["tags"].append("level:later-" + ("entry" if entry else "iface"))
+    return inj
+
+
+LOOKALIKES = [("testify", "unroll-variadic", False, "false"), ("testify", "unroll-variadic", True, "true"),
+              ("testify", "mock-build-tags", "3", 3),
+              ("matryer", "with-resets", True, "true"), ("matryer", "skip-ensure", False, "false"), ("matryer", "stub-impl", True, "true")]
+
+
+def inj_schema_lookalike(rng, scn):
+    """two mocks of one file whose template-data documents PRINT identically but differ in JSON
+    type: the valid one first, the ill-typed one (a string for a boolean, a number for a string) on
+    the later mock; under the embedded testify / matryer schemas"""
+    tmpl, key, good, bad = rng.choice(LOOKALIKES)
+    path, ifs = shared_file(rng, scn, "a" if tmpl == "matryer" else None)
+    how = rng.choice(["inherit-override", "two-entries", "two-ifaces"])
+    for sc, later_v in [(scn, bad)] + ([(scn["base_ref"], good)] if scn.get("base_ref") is not None else []):
+        ent = sc["packages"][path]
+        ent["config"]["template"] = tmpl
+        if how == "inherit-override":
+            ent["config"]["template-data"] = {key: good}             # inherited by the first mocks
+            ent["interfaces"] = {ifs[-1]: {"config": {"template-data": {key: later_v}}}}
+        elif how == "two-entries":
+            ent["interfaces"] = {ifs[0]: {"configs": [{"structname": "Plain{{.InterfaceName}}", "template-data": {key: good}},
+                                                       {"structname": "Odd{{.InterfaceName}}", "template-data": {key: later_v}}]}}
+        else:
+            ent["interfaces"] = {ifs[0]: {"config": {"template-data": {key: good}}}, ifs[-1]: {"config": {"template-data": {key: later_v}}}}
+    scn["tags"].append("SchemaReject")
+    scn["tags"].append("level:lookalike-" + how)
+
+
+# ---- ListedMissing in the shapes where nothing unlisted is left in the package ------------------------
+def inj_listed_stale(rng, scn):
+    """every interface the package declares is listed, plus one stale name"""
+    name = rng.choice(["a", "b", "c"])
+    path = pkg_path(name)
+    for sc in [scn] + ([scn["base_ref"]] if scn.get("base_ref") is not None else []):
+        if name not in sc["pkgs"]:
+            sc["pkgs"].append(name)
+        sc["packages"][path] = {"interfaces": {i: None for i in ifaces_of(path)}}
+    scn["packages"][path]["interfaces"][rng.choice(["Removed", "OldName", ifaces_of(path)[0] + "x"])] = None
+    scn["tags"].append("ListedMissing")
+    scn["tags"].append("level:stale-all-listed")
+
+
+def inj_listed_noifaces(rng, scn):
+    """a package that declares no interface at all (constants, structs, functions) + a listed name"""
+    name = rng.choice(["consts", "nodecl", "onlytest"])
+    scn["pkgs"].append(name)
+    scn["packages"][pkg_path(name)] = {"interfaces": {rng.choice(["K", "Reader", "T"]): None}}
+    scn["tags"].append("ListedMissing")
+    scn["tags"].append("level:no-interfaces")
+
+
+def inj_listed_fileless_parent(rng, scn):
+    """a directory-only recursive root (skipped by the parser) with a listed name"""
+    for sc in [scn] + ([scn["base_ref"]] if scn.get("base_ref") is not None else []):
+        if "d/e" not in sc["pkgs"]:
+            sc["pkgs"].append("d/e")
+        sc["packages"][pkg_path("d")] = {"config": {"recursive": True, "all": True}}
+    scn["packages"][pkg_path("d")]["interfaces"] = {rng.choice(["E1", "D1"]): None}
+    scn["tags"].append("ListedMissing")
+    scn["tags"].append("level:fileless-parent")
+
+
+def inj_listed_multi(rng, scn):
+    """several missing names at once, in two packages"""
+    ps = [p for p in scn["packages"]]
+    for path in rng.sample(ps, min(2, len(ps))):
+        ent = ensure_cfg(scn, path)
+        if not ent["config"]:
+            del ent["config"]
+        ent.setdefault("interfaces", {})
+        for n in rng.sample(["Typo", "Gone", "a1", "Zz", "NotIface"], rng.randint(2, 3)):
+            ent["interfaces"][n] = None
+    scn["tags"].append("ListedMissing")
+    scn["tags"].append("level:multi")
+
+
+def inj_bad_regex_later_pkg(rng, scn):
+    """the invalid regex only on the package that comes last (by path); the earlier ones are fine"""
+    cands = sorted(p for p in scn["packages"] if name_of(p) in ("a", "b", "c"))
+    path = cands[-1]
+    ent = ensure_cfg(scn, path)
+    scn["root"].pop("all", None)
+    for p2, e2 in scn["packages"].items():
+        if p2 != path and (e2 is None or not lvl(e2, "interfaces")) and not lvl(lvl(e2, "config"), "include-interface-regex"):
+            ensure_cfg(scn, p2)["config"]["all"] = True
+    ent["config"].pop("all", None)
+    ent.pop("interfaces", None)
+    if rng.random() < 0.5:
+        ent["config"]["include-interface-regex"] = rng.choice(BAD_RX[:4])
+    else:
+        ent["config"]["include-interface-regex"] = ".*"
+        ent["config"]["exclude-interface-regex"] = rng.choice(BAD_RX[:4])
+    scn["tags"].append("BadRegexInterface")
+    scn["tags"].append("level:later-package")
+
+
+def inj_conflict_pkg_third(rng, scn):
+    """two mocks of package a, then one of package b, all for the same file"""
+    for name in ("a", "b"):
+        if name not in scn["pkgs"]:
+            scn["pkgs"].append(name)
+        scn["packages"][pkg_path(name)] = {"config": {"all": True, "dir": "out/shared", "filename": "all_mocks.go", "pkgname": "shared"}}
+    scn["tags"].append("ConflictPackage")
+    scn["tags"].append("level:later-third")
+
+
 def at(fn, *levels):
     return lambda rng, scn: fn(rng, scn, levels)
 
 
 INJECTIONS = {
     "ListedMissing": inj_listed_missing, "ListedMissingAll": lambda rng, scn: inj_listed_missing(rng, scn, True),
+    "ListedMissingStale": inj_listed_stale, "ListedMissingNoIfaces": inj_listed_noifaces,
+    "ListedMissingFilelessParent": inj_listed_fileless_parent, "ListedMissingMulti": inj_listed_multi,
+    "SchemaRejectLookalike": inj_schema_lookalike,
+    "UnknownTemplateLater": later("template", ["nonsense", "Testify"], "UnknownTemplate"),
+    "UnknownFormatterLater": later("formatter", ["prettier", "GoFmt"], "UnknownFormatter"),
+    "UnknownFormatterLaterEntry": later("formatter", ["prettier"], "UnknownFormatter", entry=True),
+    "CyclicLater": later("structname", ["{{.StructName}}x"], "CyclicTemplate"),
+    "BadTemplatedLater": later("pkgname", ["{{.Nope}}"], "BadTemplatedValue", entry=True),
+    "ConflictPkgNameThird": later("pkgname", ["otherpkg"], "ConflictPkgName"),
+    "ConflictTemplateThird": later("template", ["matryer"], "ConflictTemplate"),
+    "ConflictPackageThird": inj_conflict_pkg_third,
+    "TemplateExecutionLater": later("template-data", [{"boom-read": True}, {"boom-index": True}], "TemplateExecution", trap=True),
+    "InvalidGoOutputLater": later("template-data", [{"boom-syntax": True}], "InvalidGoOutput", trap=True, entry=True),
+    "BadRegexLaterPkg": inj_bad_regex_later_pkg,
     "PkgLoadError": inj_pkg_load_error,
     "PkgLoadErrorFileless": lambda rng, scn: inj_pkg_load_error(rng, scn, True),
     "UnknownTemplateRootPkg": at(inj_unknown_template, "root", "pkg"), "UnknownTemplateIface": at(inj_unknown_template, "iface"),
@@ -1284,7 +1449,7 @@ INJECTIONS = {
     "SchemaMissing": inj_schema_missing, "TemplateSyntax": inj_template_syntax, "TemplateExecution": inj_exec_failure,
     "InvalidGoOutput": inj_invalid_go, "PrepareFailure": inj_prepare_failure,
 }
-TRAP_KINDS = {"TemplateExecution", "InvalidGoOutput"}      # the valid base already uses the probe template
+TRAP_KINDS = {"TemplateExecution", "InvalidGoOutput", "TemplateExecutionLater", "InvalidGoOutputLater"}      # the valid base already uses the probe template
 FAIL_CLASSES = {"ListedMissing", "PkgLoadError", "UnknownTemplate", "MissingRemoteTemplate", "UnknownFormatter",
                 "ConfigUnreadable", "UnknownKey", "BadRegexSubpkg", "BadRegexInterface", "CyclicTemplate", "BadTemplatedValue",
                 "SchemaMissing", "SchemaReject", "TemplateSyntax", "TemplateExecution", "InvalidGoOutput", "PrepareFailure",
@@ -1739,7 +1904,7 @@ def check(ctx, only=None):
     oracle_fail, nofail, samples = [], [], []
     hist = {}
     # ---------------- 1. go.mod texts against findPkgPath ----------------
-    gm = gomod_corpus() + list(GOMOD_CORPUS) + [gen_gomod_text(ctx.rng) for _ in range(6000 if big else 900)]
+    gm = gomod_corpus() + list(GOMOD_CORPUS) + [gen_gomod_text(ctx.rng) for _ in range(6000 if big else 600)]
     if only is not None:
         gm = [(bytes.fromhex(x["text_hex"]), x["aux_ok"], "replay") for x in only.get("gomod", [])]
     gobs = run_modpath(ctx, [t for t, _, _ in gm]) if gm else []
@@ -1756,7 +1921,7 @@ def check(ctx, only=None):
         pairs = [(s, (dict(new_scn(b["pkgs"]), **b) if b else None)) for s, b in pairs]
     else:
         nk = len(INJECTIONS)
-        pairs = gen_scenarios(ctx, n_inj=(nk * 8 if big else nk), n_combo=(120 if big else 12),
+        pairs = gen_scenarios(ctx, n_inj=(nk * 6 if big else nk), n_combo=(120 if big else 8),
                               n_unusual=(len(UNUSUAL) * 8 if big else len(UNUSUAL) + 3), n_valid=(60 if big else 8))
         pairs += [(alias_witness(ctx.rng), None) for _ in range(2)]
     results = run_pipeline_stream(ctx, pairs, oracle_c09)
@@ -1764,7 +1929,7 @@ def check(ctx, only=None):
     if only is not None:
         fz = [dict(new_scn(x["pkgs"]), raw_config=bytes.fromhex(x["raw_config_hex"]), tags=["fuzz"], cfg_status="unknown") for x in only.get("fuzz", [])]
     else:
-        fz = [fuzz_config(ctx.rng) for _ in range(1500 if big else 120)]
+        fz = [fuzz_config(ctx.rng) for _ in range(1500 if big else 80)]
     for s, r in zip(fz, run_fuzz(ctx, fz, 100000)):
         hist["config-shape-fuzz"] = hist.get("config-shape-fuzz", 0) + 1
         bad_ = []
